@@ -447,6 +447,20 @@ class BuiltinMixin:
                 self.log_write(recv, "*")
                 recv.items, recv.length, recv.arr = [], None, None
                 return None
+            if name == "remove" and recv.items is not None:
+                # list.remove(x): the first element equal to x (objects: identity; values: decided equality only)
+                self.log_write(recv, "*")
+                for k, it in enumerate(recv.items):
+                    if isinstance(it, Obj) or isinstance(args[0], Obj):
+                        eq = it is args[0]
+                    else:
+                        eq = val_eq(it, args[0])
+                        if not isinstance(eq, bool):
+                            raise Unsupported("list.remove with an undecided comparison")
+                    if eq:
+                        del recv.items[k]
+                        return None
+                self.py_raise("ValueError")
             if name == "copy":
                 return recv.copy()
             if name == "extend":
